@@ -8,6 +8,9 @@ STR = re.compile(r'"((?:[^"\\]|\\.)*)"|`([^`]*)`')
 NUM = re.compile(r'(?<![A-Za-z_0-9"])-?\d+')
 
 
+CHUNK = 3000
+
+
 def neutral(src):
     """32-bit literals and string literals over a cmd-neutral alphabet"""
     for m in STR.finditer(src):
@@ -36,9 +39,14 @@ def run_cmd(ctx, keep, tag="bat"):
             ctx.report_failure(c["id"], {"property": ctx.prop, "case": c["id"], "why": s, "source": c["src"]}, s)
             continue
         cmdcases.append({"id": c["id"], "script": b["script"], "ref": {"out": v["out"], "code": v["code"]}})
-    p2 = os.path.join(wd, "cases.ndjson")
-    write_ndjson(p2, cmdcases)
-    verd, _ = ctx.tlc("CmdExe", workdir=ctx.sub("tlc-" + tag), files=[(p2, "cases.ndjson")], timeout=6000)
+    # TLC loads the whole case file into its heap (about 20 kB per script once parsed): large batches go in chunks
+    verd = []
+    for k in range(0, len(cmdcases), CHUNK):
+        p2 = os.path.join(wd, "cases-%d.ndjson" % k)
+        write_ndjson(p2, cmdcases[k:k + CHUNK])
+        v, _ = ctx.tlc("CmdExe", workdir=ctx.sub("tlc-%s-%d" % (tag, k)), files=[(p2, "cases.ndjson")], timeout=3000)
+        verd += v
+        os.remove(p2)
     return bat, {x["id"]: x for x in verd}
 
 
